@@ -180,6 +180,11 @@ def unary(ctx, P, a, k, rng, full=True):
         for nm, it in (('reversed(range)', lambda: reversed(range(n))), ('generator', lambda: (i for i in range(0, n, 2))), ('range', lambda: range(n - 1, -1, -1)), ('map', lambda: map(int, [0, n - 1]))):
             want = [a[i] for i in it()]
             same(ctx, 'getitem', call(lambda: A[it()]), want, k, idx=nm, **det)
+    for st, sp, step in ((-1, n + 2, 1), (-2, n + 4, 1), (-n, n + 1, 2), (-1, 2 * n + 3, 1), (-2, n + 1, 3)):
+        if n and -st <= n:
+            idx = range(n + st, sp, step)          # a negative start counts from the end of the vector (Python slice semantics), the stop may overhang
+            want = [(a[i] if i < n else 0) for i in idx]
+            same(ctx, 'getitem', call(lambda: A[st:sp:step]), want, k, idx='%d:%d:%d (negative start, overhanging stop)' % (st, sp, step), **det)
     for st, sp, step in ((0, n + 3, 1), (0, n + 3, 2), (1, n + 4, 2), (n, n + 2, 1), (0, 2 * n + 1, 3), (1, n + 1, 1)):
         if st <= n:
             want = [(a[i] if i < n else 0) for i in range(st, sp, step)]      # positions past the end read as zero (SubPoly.e)
